@@ -118,7 +118,7 @@ fn c17_coalesce_extents_three() {
 }
 
 #[kani::proof]
-#[kani::unwind(3)]
+#[kani::unwind(140)]
 fn c10_metadata_block_padding() {
     let m: [u8; 136] = kani::any();
     let r = metadata_block(&m);
